@@ -233,6 +233,18 @@ example : interpolate OQ [0, 1, 2] [1, 3, 7] false = .ok [1, 1, 1] := by decide 
 example : interpolate OQ [0, 1, 2] [1, 2, 3] false = .ok [1, 1, 0] ∧
     interpolate OQ [0, 1, 2] [1, 2, 3] true = .ok [1, 1] ∧ interpolate OQ [] [] true = .ok [] := by decide +kernel
 
+/-- conversely, interpolating the values of a polynomial with at most `n` coefficients on `n` pairwise
+    distinct points returns that polynomial (uniqueness of the interpolant of degree `< n`) -/
+theorem interpolate_eval_many (L : Lawful O v) (hT : Total O) (xs p : List α)
+    (hnd : (xs.map v).Nodup) (hp : p.length ≤ xs.length) :
+    ∃ r, interpolate O xs (evalMany O p xs) false = .ok r ∧ r.length = xs.length ∧
+      toPoly v r = toPoly v p ∧ (p.length = xs.length → r.map v = p.map v) := by
+  obtain ⟨r, e, l, h⟩ := interpolate_evalMany L hT xs p hnd hp
+  exact ⟨r, e, l, h, fun hpl => toPoly_injective_on (by omega) h⟩
+
+example : interpolate OQ [0, 1, 2] (evalMany OQ [5, -1, 2] [0, 1, 2]) false = .ok [5, -1, 2] := by
+  decide +kernel
+
 /-- without the distinctness precondition the call still returns (the Lagrange formula with `inv0`) -/
 theorem interpolate_no_panic (L : Lawful O v) (hT : Total O) (xs ys : List α) (rlz : Bool)
     (hlen : xs.length = ys.length) : ∃ r, interpolate O xs ys rlz = .ok r ∧ r.length ≤ xs.length := by
